@@ -487,8 +487,8 @@ def misplaced_sweep(ctx, gen):
             for with_access in (False, True):
                 t = Node("eml")
                 if with_access or host == "access":
-                    t.add_child(gen.minimal_tree("access"))
-                ds = gen.minimal_tree("dataset")
+                    t.add_child(noref_gen().minimal_tree("access"))
+                ds = noref_gen().minimal_tree("dataset")
                 t.add_child(ds)
                 am = Node("additionalMetadata")
                 am.add_child(Node("metadata"))
